@@ -357,7 +357,7 @@ class ArrayGen:
                 elif kind == "mk_copy_shallow":
                     ops.append(f"mk_copy_shallow to={to}{sfx}"); L[to] = list(xs)
                 elif kind == "mk_copy_deep":
-                    ops.append(f"mk_copy_deep to={to}{sfx}"); L[to] = [v + 1000 for v in xs]
+                    ops.append(f"mk_copy_deep to={to}{sfx}"); L[to] = [(v + 1000) % 2**64 for v in xs]
                 else:
                     ops.append(f"mk_filter to={to}{sfx}")
                     if xs: L[to] = [v for v in xs if v % 2 == 0]
@@ -464,7 +464,7 @@ class ArrayGen:
                         b = rng.randint(0, len(L[0]) - 1); e = rng.randint(b, len(L[0]) - 1)
                         ops.append(f"mk_sub {b} {e} to={to}"); L[to] = L[0][b:e + 1]
                     else:
-                        ops.append(f"mk_copy_deep to={to}"); L[to] = [v + 1000 for v in L[0]]
+                        ops.append(f"mk_copy_deep to={to}"); L[to] = [(v + 1000) % 2**64 for v in L[0]]
                 a, b = rng.sample(sorted(L), 2)
                 xa, xb = L[a], L[b]
                 ops.append(f"zit_new o={a} p={b}")
